@@ -139,8 +139,62 @@ def observer_threads(ctx):
                                     pass
 
 
+def failing_progress_output(ctx):
+    """a progress display whose output keeps failing (HTML target in a missing directory, a callable that raises) must not
+    keep run from finishing: run returns or raises promptly and its threads are gone"""
+    import os
+    import tempfile
+    import threading
+    import time
+    uberjob = core.use_repo()
+    import uberjob.progress as up
+
+    def raising_output(data):
+        raise OSError("progress sink unavailable")
+    d = tempfile.mkdtemp(prefix="ujc07p_")
+    try:
+        for sink_name, sink in (("missing-directory", os.path.join(d, "no", "such", "dir", "progress.html")), ("raising-callable", raising_output)):
+            for failing_call in (False, True):
+                plan = uberjob.Plan()
+                x = plan.call((lambda: 1 / 0) if failing_call else (lambda: 1))
+                before = set(threading.enumerate())
+                box = {}
+
+                def target():
+                    try:
+                        uberjob.run(plan, output=x, progress=up.html_progress(sink), max_workers=2)
+                        box["o"] = "returned"
+                    except BaseException as e:      # noqa
+                        box["o"] = type(e).__name__
+                th = threading.Thread(target=target, daemon=True)
+                hook, threading.excepthook = threading.excepthook, (lambda a: None)
+                try:
+                    th.start()
+                    th.join(15)
+                    ctx.case(("c07-progress-output-fault", sink_name, failing_call))
+                    if "o" not in box:
+                        ctx.fail("progress-output:hang", "run(progress=html_progress(<%s>)) did not return within 15 s although every call had finished" % sink_name,
+                                 {"sink": sink_name, "failing_call": failing_call})
+                        return
+                    ctx.count("progress_output_fault_outcome", "%s/%s" % (sink_name, box["o"]))
+                    deadline = time.time() + 3
+                    leaked = True
+                    while time.time() < deadline and leaked:
+                        leaked = [t for t in threading.enumerate() if t not in before and t is not th and t.is_alive()]
+                        time.sleep(0.01)
+                    if leaked:
+                        ctx.fail("progress-output:thread-leak", "run(progress=html_progress(<%s>)) ended with %s but left threads running: %r"
+                                 % (sink_name, box["o"], [t.name for t in leaked]), {"sink": sink_name, "failing_call": failing_call})
+                finally:
+                    threading.excepthook = hook
+    finally:
+        import shutil
+        shutil.rmtree(d, ignore_errors=True)
+
+
 def run(ctx):
     observer_threads(ctx)
+    failing_progress_output(ctx)
     engine_corr.campaign(ctx, {"C07"})
     literal_cycles(ctx)
     interrupted(ctx)
